@@ -125,3 +125,83 @@ func completeCopies(c *Ctx, rule, pkg string, skip func(f *ssa.Function) bool) (
 	}
 	return n
 }
+
+// hashFed: a hash or HMAC object that a function creates and then finalises with Sum has been fed: some Write on it (or
+// a hand-over of the object to a callee that may write) can reach the Sum. A digest computed over nothing — the
+// data passed to Sum's *argument* by mistake, for instance — is a constant, not a MAC of the message.
+func hashFed(c *Ctx, rule string, pkgs []string) (n int) {
+	for _, pkg := range pkgs {
+		for _, f := range c.P.RepoFuncs(pkg) {
+			if strings.HasSuffix(c.P.relFile(f.Pos()), "_test.go") {
+				continue
+			}
+			k := 0
+			for _, ci := range allCalls(f) {
+				sum, ok := ci.(*ssa.Call)
+				if !ok || !sum.Call.IsInvoke() || sum.Call.Method.Name() != "Sum" {
+					continue
+				}
+				obj, isCall := sum.Call.Value.(*ssa.Call)
+				if !isCall || obj.Parent() != f {
+					continue // not created here: fed elsewhere
+				}
+				k++
+				n++
+				c.Evals++
+				fed := false
+				for _, r := range *obj.Referrers() {
+					in, isInstr := r.(ssa.Instruction)
+					if !isInstr || in == ssa.Instruction(sum) {
+						continue
+					}
+					switch x := r.(type) {
+					case *ssa.Call:
+						if x.Call.IsInvoke() && x.Call.Value == ssa.Value(obj) && x.Call.Method.Name() == "Write" && instrReaches(x, sum, nil) {
+							fed = true
+						}
+						for _, a := range x.Call.Args { // handed to a callee (io.WriteString, a helper, ...)
+							if a == ssa.Value(obj) && instrReaches(x, sum, nil) {
+								fed = true
+							}
+						}
+					case *ssa.MakeInterface, *ssa.ChangeInterface, *ssa.Store, *ssa.MakeClosure, *ssa.Phi:
+						fed = true // escapes: assume it may be written through the alias
+					}
+				}
+				c.Check(fed, rule, fname(f), fmt.Sprintf("digest #%d is taken of data that was written to the hash", k), "", "Sum is called on a hash/HMAC object created in this function without any Write reaching it: the result does not depend on the message (the data may have been passed as Sum's argument, which is only a prefix for the output)", sum.Pos())
+			}
+		}
+	}
+	return n
+}
+
+// fixedWidthHashed: in package sm2 a big integer that depends on a key, a nonce or a peer's point is never written to
+// a hash in its minimal-length form (big.Int.Bytes() drops leading zero bytes, so about one value in 256 would hash
+// differently from the 32-byte encoding GM/T 0003 prescribes): the only Bytes() results written directly are the
+// curve's own constants.
+func fixedWidthHashed(c *Ctx, rule string) (n int) {
+	for _, f := range c.P.RepoFuncs("sm2") {
+		if strings.HasSuffix(c.P.relFile(f.Pos()), "_test.go") {
+			continue
+		}
+		be := newBigEnv(f, allParamNames(f))
+		k := 0
+		for _, ci := range allCalls(f) {
+			w, ok := ci.(*ssa.Call)
+			if !ok || !w.Call.IsInvoke() || w.Call.Method.Name() != "Write" || len(w.Call.Args) != 1 {
+				continue
+			}
+			raw, name, recv, _, isBig := bigMethod(w.Call.Args[0])
+			if !isBig || name != "Bytes" {
+				continue
+			}
+			k++
+			n++
+			c.Evals++
+			who := be.valueAt(recv, raw).String()
+			constant := strings.Contains(who, "sm2P256") || strings.Contains(who, "Params()") || strings.Contains(who, "CurveParams")
+			c.Check(constant, rule, fname(f), fmt.Sprintf("integer written to a hash #%d has a fixed width", k), "a curve constant", "the minimal-length bytes of "+who+" are written to a hash: a value with a leading zero byte is hashed as a shorter string than the 32-byte encoding of the standard (pad it to 32 bytes first)", w.Pos())
+		}
+	}
+	return n
+}
